@@ -214,6 +214,22 @@ func runC08(c *core.Ctx) error {
 			})
 		}
 	}
+	// the dot is rewritten wherever pattern text is scanned outside a class: both scanner loops (top level and
+	// inside a group) need their own `case '.'` that writes the ECMA dot class — a loop without it passes '.'
+	// through with RE2's meaning
+	for _, fnName := range []string{"scan", "scanGroup"} {
+		has := false
+		for _, st := range sites {
+			if st.fn == fnName && st.ctx == "case '.'" {
+				has = true
+			}
+		}
+		if has {
+			r1.Pass(fnName + " rewrites '.'")
+		} else {
+			r1.Fail("dot-not-rewritten:"+fnName, "-", "ogenregex.(*parser)."+fnName+" has no `case '.'` that writes the ECMA-262 dot class: inside that scanner a dot keeps RE2's meaning (it matches U+2028/U+2029 and, with (?s), line feeds)")
+		}
+	}
 	for _, s := range sites {
 		key := s.fn + ":" + s.ctx
 		pos := c.Pos(s.pos)
